@@ -1,6 +1,7 @@
 package main
 
 import (
+	"runtime"
 	"bytes"
 	"crypto/hmac"
 	"crypto/sha1"
@@ -35,6 +36,41 @@ type randLog struct {
 	fail  int // fail the n-th next read (1-based); 0 = never
 	owner *Party
 	zeroSMP bool // SMP-parameter sized reads return zero (a peer that chooses degenerate exponents)
+	keep    bool // C08: keep every value handed out, the buffer it was written to, and the call site
+	draws   []draw
+}
+
+// draw: one read from the random source (kept when randLog.keep is set)
+type draw struct {
+	val   []byte // copy of what was handed out
+	alias []byte // the caller's buffer itself
+	site  string // exp (DH private key), r (AKE commitment key), smp, tag, other
+}
+
+func drawSite() string {
+	pcs := make([]uintptr, 24)
+	n := runtime.Callers(3, pcs)
+	fr := runtime.CallersFrames(pcs[:n])
+	for {
+		f, more := fr.Next()
+		name := f.Function
+		if i := strings.LastIndex(name, "/"); i >= 0 {
+			name = name[i+1:]
+		}
+		if strings.HasPrefix(name, "otr3.") && !strings.Contains(name, "rand") && !strings.Contains(name, "Rand") {
+			switch {
+			case strings.Contains(name, "generateSMP"):
+				return "smp"
+			case strings.Contains(name, "generateInstanceTag"):
+				return "tag"
+			default:
+				return name
+			}
+		}
+		if !more {
+			return "other"
+		}
+	}
 }
 
 func (l *randLog) Read(p []byte) (int, error) {
@@ -56,6 +92,9 @@ func (l *randLog) Read(p []byte) (int, error) {
 		copy(p, l.r.Bytes(n))
 	}
 	l.reads = append(l.reads, append([]byte{}, p...))
+	if l.keep {
+		l.draws = append(l.draws, draw{append([]byte{}, p...), p, drawSite()})
+	}
 	if n == 40 && l.owner != nil {
 		l.owner.akeExp = append([]byte{}, p...)
 	}
